@@ -55,6 +55,8 @@ class SumAggregator:
         #  where index is the position of the variable indicating the minimum/maximum
         self._atmost_preds: list[AnnotatedPredicate]
         self._atleast_preds: list[AnnotatedPredicate]
+        # argument positions at which the defining rule of an at-most-one predicate has a ground term
+        self._ground_positions: dict[AnnotatedPredicate, set[int]] = {}
         self._atmost_preds, self._atleast_preds = self._calc_at_most(prg)
         self.objectives: dict[tuple[AST, ...], list[AST]] = defaultdict(list)
         self._collect_objectives(prg)
@@ -124,6 +126,9 @@ class SumAggregator:
                 if not global_vars or not local_vars.issubset(global_vars):
                     unprojected.append(index)
             preds.add(AnnotatedPredicate(p, tuple(unprojected)))
+            self._ground_positions[AnnotatedPredicate(p, tuple(unprojected))] = {
+                index for index, arg in enumerate(sa.arguments) if not collect_ast(arg, "Variable")
+            }
 
         if len(preds) != 1:
             return ret
@@ -205,17 +210,20 @@ class SumAggregator:
                 return False
         return True
 
-    @staticmethod
-    def _group_in_tuple(trigger_lit: AST, trigger_anon_pred: AnnotatedPredicate, terms: list[AST]) -> bool:
+    def _group_in_tuple(self, trigger_lit: AST, trigger_anon_pred: AnnotatedPredicate, terms: list[AST]) -> bool:
         """True if all variables that identify the group of the trigger literal also occur in the tuple,
-        otherwise equal values of different groups form one tuple and may not be counted per group"""
+        otherwise equal values of different groups form one tuple and may not be counted per group.
+        An anonymous group argument is only fine where the defining rule has a ground term (a single group)"""
         tuple_vars = set()
         for term in terms:
             tuple_vars.update(collect_ast(term, "Variable"))
+        ground = self._ground_positions.get(trigger_anon_pred, set())
         for index, arg in enumerate(trigger_lit.atom.symbol.arguments):
             if index in trigger_anon_pred.annotated_positions:
                 continue
             for var in collect_ast(arg, "Variable"):
+                if var.name == "_" and index not in ground:
+                    return False
                 if var.name != "_" and var not in tuple_vars:
                     return False
         return True
